@@ -172,6 +172,8 @@ def parts_of(t):
     """flatten Add/BitOr into parts"""
     if t[0] == "bin" and t[1] in ("Add", "BitOr", "AddUnchecked"):
         return parts_of(t[2]) + parts_of(t[3])
+    if const_int(t) == 0:
+        return []          # `| 0` / `+ 0`: an absent field
     return [t]
 
 
